@@ -9,6 +9,10 @@
 package main
 
 import (
+	"io"
+
+	"github.com/sirupsen/logrus"
+
 	"bufio"
 	"encoding/hex"
 	"encoding/json"
@@ -37,8 +41,8 @@ func (r *Rng) Intn(n int) int {
 	}
 	return int(r.Next() % uint64(n))
 }
-func (r *Rng) Bool() bool       { return r.Next()&1 == 1 }
-func (r *Rng) Chance(p int) bool { return r.Intn(100) < p }
+func (r *Rng) Bool() bool          { return r.Next()&1 == 1 }
+func (r *Rng) Chance(p int) bool   { return r.Intn(100) < p }
 func Pick[T any](r *Rng, xs []T) T { return xs[r.Intn(len(xs))] }
 
 // Out collects ops and implementation outcomes.
@@ -132,6 +136,7 @@ type Area struct {
 var areas = map[string]Area{}
 
 func main() {
+	logrus.SetOutput(io.Discard) // the library logs through logrus: keep the streams clean
 	if len(os.Args) >= 2 && os.Args[1] == "exec" {
 		// vharness exec : read op lines "<area>.<op>\targs" on stdin, print the implementation's outcome per line
 		sc := bufio.NewScanner(os.Stdin)
